@@ -393,6 +393,14 @@ def I_hkey(v):
     return hkey(v)
 
 
+class MapItems:
+    """.items() / .keys() view of a symbolic map (only usable in the filtered-copy comprehension idiom)"""
+
+    def __init__(self, m, keys_only=False):
+        self.m = m
+        self.keys_only = keys_only
+
+
 class IterVal:
     def __init__(self, items):
         self.items = list(items)
@@ -638,6 +646,16 @@ def builtin_method(I, ctx, o, name, via_super=False):
         return symlist_method(I, ctx, o, name)
     if isinstance(o, SeqVal):
         return None
+    if isinstance(o, B.MapVal):
+        if name == "get":
+            return B_(lambda ctx, k, d=None: B.map_get(I, ctx, o, k, d))
+        if name == "items":
+            return B_(lambda ctx: MapItems(o))
+        if name == "keys":
+            return B_(lambda ctx: MapItems(o, keys_only=True))
+        if name == "__setitem__":
+            return B_(lambda ctx, k, v: B.map_store(I, ctx, o, k, v))
+        return None
     if isinstance(o, DictVal):
         return dict_method(I, ctx, o, name)
     if isinstance(o, ObjDictView):
@@ -783,7 +801,12 @@ def dict_method(I, ctx, o, name):
     def B_(fn):
         return Builtin("dict." + name, fn)
     if name == "get":
-        return B_(lambda ctx, k, d=None: o.items.get(I_hkey(k), d))
+        def dget(ctx, k, d=None):
+            try:
+                return o.items.get(I_hkey(k), d)
+            except Unsupported:
+                return B.map_get(I, ctx, B.map_from_dict(I, ctx, o), k, d)
+        return B_(dget)
     if name == "items":
         return B_(lambda ctx: ListVal([TupleVal([o.keyvals[k], v]) for k, v in o.items.items()]))
     if name == "keys":
@@ -898,7 +921,13 @@ def set_method(I, ctx, o, name):
     def B_(fn):
         return Builtin("set." + name, fn)
     if name == "add":
-        return B_(lambda ctx, x: o.items.__setitem__(I_hkey(x), x))
+        def add(ctx, x):
+            try:
+                k = I_hkey(x)
+            except Unsupported:
+                k = ("symbolic-element", id(x))      # symbolic elements are kept apart (never merged)
+            o.items[k] = x
+        return B_(add)
     if name == "union":
         def union(ctx, *others):
             s = SetVal()
